@@ -514,17 +514,40 @@ def transformer_scc(ctx, rid, key, comp, g, bindings):
                 h = N.transparent_fn(n["callee"], None)
                 if h is not None and h["path"] != fn["path"]:
                     yield from walk_through(h["body"], depth + 1)
+    marker_node = policy_node = None
     for n in walk_through(fn["body"]):
         if n.get("k") == "MethodCall" and cshort(n.get("callee", "")) in ("HashMap::insert", "Entry::or_insert", "Entry::or_insert_with"):
             a = show(N.term(n["args"][-1]))
             kind = "Recursive" if "Recursive" in a else "Computed" if "Computed" in a else a[:30]
             if cshort(n["callee"]) != "HashMap::insert" and kind == "Recursive":
                 weak_marker = True      # keeps an existing (possibly Computed) entry
+            if kind == "Recursive" and marker_node is None:
+                marker_node = n
             order.append("insert:" + kind)
         elif n.get("k") == "Call" and "f" in n:
             f = strip(n["f"])
             if f.get("k") == "Field":
+                if f["name"] == "policy" and policy_node is None:
+                    policy_node = n
                 order.append("call:" + f["name"])
+    # the marker is set on EVERY path that reaches the policy: whatever guards the marker also guards the policy call
+    if marker_node is not None and policy_node is not None:
+        from . import guards as GD
+
+        def conds_of(node):
+            for b_ in [fn] + [h for h in (ctx.P.body(x.get("callee")) for x in walk(fn["body"]) if x.get("k") in ("Call", "MethodCall") and x.get("callee")) if h and "body" in h]:
+                if GD.path_to(b_["body"], node):
+                    Nb = N if b_ is fn else Norm(b_)
+                    return set(GD.cond_strings(GD.dominating(Nb, b_["body"], node))), b_ is fn
+            return None, False
+        cm, m_in_fn = conds_of(marker_node)
+        cp, p_in_fn = conds_of(policy_node)
+        if cm is not None and cp is not None:
+            ok_dom = (cm <= cp) if (m_in_fn and p_in_fn) else not (cm - (cp if m_in_fn == p_in_fn else set())) if not m_in_fn else True
+            ctx.expect(ok_dom, rid, key + "/marker-unconditional", fn["sp"],
+                       "the in-progress marker is set on every path that reaches the policy call (no condition guards the marker alone)",
+                       "the in-progress marker is only set under `%s`, the policy runs also without it: types for which the condition fails lose the recursion guard"
+                       % " && ".join(sorted(cm - cp))[:300])
     want = ["call:recurse_policy", "call:cache_hit_policy", "insert:Recursive", "call:policy", "insert:Computed"]
     ctx.expect(order == want, rid, key + "/marker-order", fn["sp"],
                "resolve(): consult recurse/cache-hit policy, mark the id in progress, run the policy, store the result - in this order",
